@@ -17,6 +17,30 @@ CHECKS = {
         "Trusts the harness PCM expansion and comparison code; the crate's own decoder is the inverse (C02 covers conformance).",
         "DESIGN.md section 4 C01",
     ),
+    "C02": (
+        "proptest + exhaustive grid, oracle = independent strict RFC 9639 validator/decoder (no crate decoder involved)",
+        "exploration",
+        "Every file / raw frame stream produced over the C01 case space (plus FlacStreamWriter sequences with per-frame "
+        "parameters) is judged only by harness/src/refdec.rs in strict mode: header codes, minimal coded numbers, CRC-8/16, zero "
+        "padding, partition/residual-range/predictor/wasted-bit rules, consecutive numbering, block-size discipline, STREAMINFO "
+        "fields, MD5, and bit-exact reconstruction with exact (non-wrapping) arithmetic. Detects encoder/decoder pairs that agree "
+        "with each other but not with the format.",
+        "Trusts refdec.rs as a reading of RFC 9639; it is cross-checked against the independent generator framegen.rs on every "
+        "C03 case and decodes the repository fixtures to their stored MD5.",
+        "DESIGN.md section 4 C02",
+    ),
+    "C03": (
+        "proptest over a grammar-complete independent stream generator; oracle = target PCM (valid by construction)",
+        "exploration",
+        "Streams are produced by harness/src/framegen.rs choosing every syntactic alternative independently (variable blocking, "
+        "all block-size/rate/depth codings, all channel layouts incl. 33-bit side, FIXED 0-4, LPC 1-32 with precision 1-15, "
+        "wasted bits, both residual methods at any depth, every legal partition order, any Rice parameter, escapes incl. width 0); "
+        "the crate must return the target PCM through all six readers, report STREAMINFO values, and give the right verify verdict "
+        "for true/absent/wrong MD5; bare frames sweep 1..7-byte coded numbers through FlacStreamReader and Frame::read_subset. "
+        "Both build profiles.",
+        "Validity of generated streams is not assumed but checked per case by the independent decoder (disagreement = exit 2).",
+        "DESIGN.md section 4 C03",
+    ),
 }
 
 NOT_YET = {}
